@@ -1,5 +1,6 @@
 (* C29 — graph exports are well-formed for any model and metamodel. *)
-From TxV Require Import Core.Base Model.ExportDefs Gen.SrcExport Model.Export Model.ExportWalk Proofs.ExportProofs Proofs.ExportDocProofs Proofs.ExportWalkProofs.
+From Coq Require Import String.
+From TxV Require Import Core.Base Model.ExportDefs Gen.SrcExport Model.Export Model.ExportWalk Model.ExportMeta Proofs.ExportProofs Proofs.ExportDocProofs Proofs.ExportWalkProofs Proofs.ExportMetaProofs.
 
 (* dot_escape is the replacement chain translated from textx/export.py.  For every string s, the text
    <quote> dot_escape s <quote> rest  is scanned by the DOT string scanner as exactly one quoted string
@@ -43,6 +44,32 @@ Print Assumptions C29_model_doc.
 Theorem C29_metamodel_doc : forall w, gen metamodel_doc w -> drun DOut w = Some DOut.
 Proof. exact metamodel_doc_quotes. Qed.
 Print Assumptions C29_metamodel_doc.
+
+(* ---- blocks: braces and brackets outside strings.  gstep refines the document machine: strings and attribute
+   lists only inside the graph block, attribute lists [ ] not nested and without braces, HTML strings only inside
+   attribute lists, the brace that returns to depth 0 ends the graph and only white space follows it.
+   Every text the translated DOT templates can produce is one such block (the subgraph blocks of the repository
+   path open and close inside it; _export_subgraph is translated as the sequence of its writes). *)
+Theorem C29_blocks_sound : forall t, doc_blocks_ok t = true -> forall w, gen t w -> grun g_start w = Some g_final.
+Proof. exact doc_blocks_sound. Qed.
+Print Assumptions C29_blocks_sound.
+
+Theorem C29_model_doc_blocks : forall w, gen model_doc w -> grun g_start w = Some g_final.
+Proof. exact model_doc_blocks. Qed.
+Print Assumptions C29_model_doc_blocks.
+
+Theorem C29_metamodel_doc_blocks : forall w, gen metamodel_doc w -> grun g_start w = Some g_final.
+Proof. exact metamodel_doc_blocks. Qed.
+Print Assumptions C29_metamodel_doc_blocks.
+
+Example C29_blocks_nonvacuous :
+  grun g_start [103; 32; 123; 97; 91; 108; 61; 34; 125; 34; 93; 123; 98; 125; 125; 10]%N = Some g_final   (* g {a[l="}"]{b}} *)
+  /\ grun g_start [103; 123; 97; 91; 91]%N = None            (* nested bracket *)
+  /\ grun g_start [103; 123; 125; 97]%N = None               (* text after the closing brace *)
+  /\ grun g_start [103; 123; 91; 123]%N = None               (* brace inside an attribute list *)
+  /\ doc_blocks_ok (TCat [TLit [103; 123]%N; TStar (TLit [125]%N)]) = false.
+Proof. vm_compute. repeat split; reflexivity. Qed.
+Print Assumptions C29_blocks_nonvacuous.
 
 (* ---- record labels (all nodes have shape=record): Graphviz reports "bad label format" and exits non-zero
    when a label's braces, pipes and angle brackets do not form a record.
@@ -148,3 +175,92 @@ Proof.
   - vm_compute. intros [H|[H|[H|[]]]]; discriminate.
 Qed.
 Print Assumptions C29_nodes_nonvacuous.
+
+(* ---- the repository path (several models, one subgraph block per model file, one processed set, references
+   across files): the node statements are those of exactly the objects reachable from any of the models, each once;
+   the subgraph blocks contribute no node statement of their own (their members are bare ids) *)
+Theorem C29_repo_nodes : forall st roots, (forall r, In r (map fst roots) -> r < length st) ->
+  NoDup (node_ids (fst (export_repo st roots)))
+  /\ forall k, In k (node_ids (fst (export_repo st roots))) <-> reach_any st (map fst roots) k.
+Proof. exact export_repo_nodes_exact. Qed.
+Print Assumptions C29_repo_nodes.
+
+(* two files: model 0 contains 1; model 2 contains 3, and 1 refers to 3 across files: 3 is written while model 0 is
+   exported and not again with its own model *)
+Example C29_repo_nonvacuous :
+  let a (name : list N) (c l : bool) (v : aval) := mkAttr name c true l v in
+  let st := [mkObj [77]%N [a [107]%N true true (VList [IObj 1])];
+             mkObj [65]%N [a [114]%N false false (VObj 3)];
+             mkObj [77]%N [a [107]%N true true (VList [IObj 3])];
+             mkObj [66]%N []] in
+  node_ids (fst (export_repo st [(0%nat, [102]%N); (2%nat, [103]%N)])) = [3; 1; 0; 2]%nat
+  /\ children st 5 2 [] = [2; 3]%nat
+  /\ reach_any st [0; 2]%nat 3.
+Proof.
+  cbn zeta. split; [vm_compute; reflexivity|]. split; [vm_compute; reflexivity|].
+  exists 2%nat. split; [cbn; tauto|]. apply (reach_step _ 2 2 3); [constructor|].
+  eexists. split; [reflexivity|]. split; [cbn; tauto | cbn; lia].
+Qed.
+Print Assumptions C29_repo_nonvacuous.
+
+(* ---- metamodel exports.  ExportMeta.mm_stmts transcribes metamodel_export_tofile over the class list of
+   get_unified_classes for any renderer; with DotRenderer / PlantUmlRenderer it is compared text for text with
+   the implementation on every generated metamodel.  has_node c: c is in the exported list (fqn not a built-in
+   type name), its name is no built-in type name and it is not a match rule = the common and abstract classes of
+   the grammar.  For every class list and every renderer: *)
+
+(* every such class gets exactly one node statement (DOT) / class declaration (PlantUML) *)
+Theorem C29_mm_nodes : forall cl R k c, nth_error cl k = Some c -> has_node c = true ->
+  count_occ Nat.eq_dec (mnode_ids (mm_stmts cl R)) k = 1.
+Proof. exact mm_node_once. Qed.
+Print Assumptions C29_mm_nodes.
+
+(* nothing else is declared, except a built-in abstract class (OBJECT) once per attribute of that type; never a
+   match rule *)
+Theorem C29_mm_nodes_only : forall cl R k, In k (mnode_ids (mm_stmts cl R)) ->
+  exists c, nth_error cl k = Some c /\ is_match c = false /\ (has_node c = true \/ in_classes c = false).
+Proof. exact mm_node_only. Qed.
+Print Assumptions C29_mm_nodes_only.
+
+(* the statement tagged as the declaration of class k is the renderer's text for class k *)
+Theorem C29_mm_node_text : forall cl R k t, In (MNode k, t) (mm_stmts cl R) ->
+  exists c, nth_error cl k = Some c /\ t = r_class R cl k c.
+Proof. exact mm_node_text. Qed.
+Print Assumptions C29_mm_node_text.
+
+(* links and specialisation edges only join declared classes, given what textX guarantees about the class list
+   (wf_mm: decidable, evaluated on every dumped list) *)
+Theorem C29_mm_edges_declared : forall cl R, wf_mm cl = true -> forall a b, In (a, b) (medges (mm_stmts cl R)) ->
+  In a (mnode_ids (mm_stmts cl R)) /\ In b (mnode_ids (mm_stmts cl R)).
+Proof. exact mm_edges_declared. Qed.
+Print Assumptions C29_mm_edges_declared.
+
+(* the PlantUML document is @startuml, then header rest, statements and legend, then @enduml; the DOT one is the
+   header (digraph ... {), statements and match-rule table, then the closing brace *)
+Theorem C29_plantuml_shape : forall cl lt rows,
+  mm_pu_doc cl lt rows = pu_start ++ (pu_header_rest lt ++ flat_map snd (mm_stmts cl pu_renderer) ++ pu_legend rows) ++ pu_end.
+Proof. exact pu_doc_shape. Qed.
+Print Assumptions C29_plantuml_shape.
+
+Theorem C29_mm_dot_shape : forall cl rows,
+  mm_dot_doc cl rows = export_header ++ (flat_map snd (mm_stmts cl dot_renderer) ++ dot_table rows) ++ dot_close.
+Proof. exact dot_doc_shape. Qed.
+Print Assumptions C29_mm_dot_shape.
+
+(* non-vacuity: Model (common: items+=Item, o=OBJECT, t=Tok), Item (abstract: Sub), Sub (common), Tok (match),
+   the built-in ID (match) and OBJECT (abstract) *)
+Local Open Scope string_scope.
+Example C29_mm_nonvacuous :
+  let cl := [mkMCls (codes "Model") (codes "Model") KCommon
+               [mkMAttr (codes "items") 1 M1s true true; mkMAttr (codes "o") 5 M1 true true; mkMAttr (codes "t") 3 M1 true false] [];
+             mkMCls (codes "Item") (codes "Item") KAbstract [] [2%nat];
+             mkMCls (codes "Sub") (codes "Sub") KCommon [mkMAttr (codes "name") 4 M1 true false] [];
+             mkMCls (codes "Tok") (codes "Tok") KMatch [] [];
+             mkMCls (codes "ID") (codes "ID") KMatch [] [];
+             mkMCls (codes "OBJECT") (codes "OBJECT") KAbstract [] []] in
+  wf_mm cl = true
+  /\ mnode_ids (mm_stmts cl dot_renderer) = [0; 1; 2; 5]%nat
+  /\ medges (mm_stmts cl pu_renderer) = [(0, 1); (1, 2)]%nat
+  /\ map has_node cl = [true; true; true; false; false; false].
+Proof. vm_compute. repeat split; reflexivity. Qed.
+Print Assumptions C29_mm_nonvacuous.
